@@ -28,7 +28,7 @@ static void one(uint32_t B, uint32_t L, uint32_t E, int announce, int unique)
 int p_c20(void)
 {
 	long unit = 0;
-	uint32_t lim = g_run.thorough ? 3000 : 600;
+	uint32_t lim = g_run.thorough ? 8000 : 600;
 	/* exhaustive T,B in 1..lim with E=1: one unit per block of 50 values of B; one announced case per (B, T-range) */
 	for (uint32_t b0 = 1; b0 <= lim; b0 += 50, unit++) {
 		rep_unit(unit);
@@ -45,7 +45,7 @@ int p_c20(void)
 	for (unsigned e = 0; e < 4; e++, unit++) {
 		rep_unit(unit);
 		if (!rep_unit_mine(unit)) continue;
-		uint32_t E = Es[e], tl = g_run.thorough ? 1200 : 300;
+		uint32_t E = Es[e], tl = g_run.thorough ? 4000 : 300;
 		for (uint32_t B = 1; B <= tl; B += (B < 40 ? 1 : 7)) {
 			if (!rep_case("around-multiples E=%u B=%u T=1..%u", E, B, tl)) continue;
 			for (uint32_t T = 1; T <= tl; T++)
@@ -58,7 +58,7 @@ int p_c20(void)
 		}
 	}
 	/* sampled triples over the 32-bit range, biased to boundaries */
-	int nunits = 32; long per = g_run.thorough ? 160000 : 32000;
+	int nunits = 32; long per = g_run.thorough ? 1600000 : 32000;
 	for (int u = 0; u < nunits; u++, unit++) {
 		rep_unit(unit);
 		if (!rep_unit_mine(unit)) continue;
